@@ -252,6 +252,9 @@ def drive(run, g, mdocs, msets, stream, extract=False):
             covered = None
             if msets and msets[0] == "ok" and i < len(msets[1]):
                 covered = msets[1][i][3] == "t"
+                if msets[1][i][4] != "t":
+                    run.broken("guard", f"recorded_reachable is false for {op.name.value} seed {g.sc.seed}: the generator "
+                                        "recorded a fragment the operation does not reach")
             # K1b
             if mdocs and mdocs[0] == "ok" and q is not None and i < len(mdocs[1]):
                 try:
